@@ -1,9 +1,10 @@
 from common import COMMON_TRUST
 
 PROP = {
-    "generated": ["EnvelopeTables"],
+    "generated": ["EnvelopeTables", "MultiReaderConsts"],
     "lean_modules": ["SwimVerif.Model.Envelope", "SwimVerif.Proofs.Envelope", "SwimVerif.Generated.EnvelopeTables",
-                     "SwimVerif.Model.Routing", "SwimVerif.Model.RoutingMon", "SwimVerif.Proofs.Routing"],
+                     "SwimVerif.Model.Routing", "SwimVerif.Model.RoutingMon", "SwimVerif.Proofs.Routing",
+                     "SwimVerif.Model.MultiReader", "SwimVerif.Proofs.MultiReader", "SwimVerif.Generated.MultiReaderConsts"],
     "engines": [
         {"name": "pure", "crate": "core", "bin": "sv-c11", "machine": "c11pure",
          "cases": {"quick": 24000, "thorough": 1600000}, "min_shard": 2000, "gen_args": ["pure"], "nontrivial_min_ops": 1},
@@ -11,6 +12,8 @@ PROP = {
          "cases": {"quick": 24000, "thorough": 1600000}, "min_shard": 2000, "gen_args": ["fuzz"], "nontrivial_min_ops": 1},
         {"name": "route", "crate": "core", "bin": "sv-c11", "machine": "c11route",
          "cases": {"quick": 12000, "thorough": 600000}, "min_shard": 1000, "gen_args": ["route"]},
+        {"name": "mr", "crate": "core", "bin": "sv-c11", "machine": "c11mr",
+         "cases": {"quick": 16000, "thorough": 800000}, "min_shard": 1000, "gen_args": ["mr"]},
     ],
     "level_text": "TODO",
     "level_note": "TODO",
